@@ -241,6 +241,45 @@ theorem dag_inv (cfg : Cfg) (b64 : String → Bool) (env : Env) (subs : List Sub
   obtain ⟨a, b, c⟩ := chain_mem hi.chain t ht
   exact ⟨a, b, c, chain_sig hi.chain t ht⟩
 
+/-- **Notified exactly once.** With the node's subscriber configuration (`SubsOK`: unique names; a persistent
+    subscriber listens to one event type) — after ANY sequence of offers, every subscriber whose filter accepts the
+    transaction event of a stored transaction has received exactly one transaction event for it; nobody has received
+    an event about a ref that is not stored. Re-offers, rejected offers and other transactions never add one
+    (`add_idempotent`, `rejected_no_trace`, `Admitted.ledger`). -/
+theorem notified_exactly_once (cfg : Cfg) (b64 : String → Bool) (env : Env) (subs : List Sub) (hok : SubsOK subs) (os : List Offer) :
+    let s := os.foldl (offerStep cfg b64 env subs) {}
+    (∀ sub ∈ subs, ∀ t ∈ s.txs, sub.accepts .tx t = true → evCount s.ledger sub.name .tx t.ref = 1) ∧
+    (∀ (n : String) (typ : EvType) (r : Nat), r ∉ refsOf s.txs → evCount s.ledger n typ r = 0) := by
+  have hinv : ∀ (os : List Offer) (s : St), Inv env s →
+      (∀ sub ∈ subs, ∀ t ∈ s.txs, sub.accepts .tx t = true → evCount s.ledger sub.name .tx t.ref = 1) →
+      Inv env (os.foldl (offerStep cfg b64 env subs) s) ∧
+      (∀ sub ∈ subs, ∀ t ∈ (os.foldl (offerStep cfg b64 env subs) s).txs, sub.accepts .tx t = true →
+        evCount (os.foldl (offerStep cfg b64 env subs) s).ledger sub.name .tx t.ref = 1) := by
+    intro os
+    induction os with
+    | nil => intro s h ho; exact ⟨h, ho⟩
+    | cons o t ih =>
+      intro s h ho
+      simp only [List.foldl_cons]
+      apply ih
+      · unfold offerStep offer
+        split
+        · exact inv_add h
+        · exact h
+        · exact h
+      · unfold offerStep offer
+        split
+        · exact once_add hok h ho
+        · exact ho
+        · exact ho
+  intro s
+  obtain ⟨hi, ho⟩ := hinv os {} (inv_empty env) (by intro _ _ t ht; cases ht)
+  refine ⟨ho, ?_⟩
+  intro n typ r hr
+  apply evCount_zero
+  intro e he hc
+  exact hr (hc ▸ hi.ledgerRefs e he)
+
 /-! ### concurrent submissions -/
 
 /-- **Concurrent adds serialise.** For ANY number of concurrent `Add` calls (same, sibling, dependent, invalid
@@ -339,6 +378,13 @@ example :
 /-- `created_tx_admissible`: hypotheses are satisfiable on s2 (head = child, additional prev = root) -/
 example : createPrevsClock s2 [11] = .ok ([12, 11], 2) := by decide
 example : (add env subs s2 (mk 17 2 [12, 11] 105 true "") (some 5)).2 = .ok () := by decide
+
+/-- `notified_exactly_once`: the example subscriber set satisfies `SubsOK` -/
+example : SubsOK subs := by
+  refine ⟨by decide, ?_⟩
+  intro sub hs hp
+  simp [subs] at hs
+  rcases hs with h | h <;> subst h <;> simp at hp ⊢
 
 /-- `parse_sound` / `lc_exact`: a header that parses -/
 example : parse srcCfg (fun _ => true)
